@@ -158,7 +158,8 @@ def run(ctx):
   maxlen = 5
   jobs = []
   for d in ([1, 2, 3, 4, 8] if big else [1, 2, 3, 8]):
-    cases = [{'nb': p, 'gen': i % 2 == 0, 'jax_inputs': i % 3 != 0} for i, p in enumerate(profiles)]
+    # every fifth profile: the same for_each_client function is called three times, the shared input updated in between
+    cases = [{'nb': p, 'gen': i % 2 == 0, 'jax_inputs': i % 3 != 0, 'calls': 3 if (i % 5 == 0 or i % 6 == 0) else 1} for i, p in enumerate(profiles)]
     if d in (3, 4, 8) and not big:
       cases = cases[::3]
     backends = ['pmap'] + (['jit', 'debug'] if d == 1 else [])
@@ -180,6 +181,8 @@ def run(ctx):
   for job, recs in zip(jobs, results):
     for rec in recs:
       cfg = dict(nb=rec['nb'], backend=rec['backend'], devices=job['devices'], with_step_result=rec['with_step_result'], order=rec['order'])
+      if rec.get('call'):
+        cfg['call'] = rec['call'] + 1
       nb = rec['nb']
       pad = rec['backend'] == 'pmap' and (len(nb) % job['devices'] != 0 or len(set(nb)) > 1)
       ctx.case(key=repr(cfg), nontrivial=pad)
@@ -207,7 +210,8 @@ def run(ctx):
           y = got[c]
           out, res = spec_out(y)
           e = exp[c - 1]
-          base = [c * 0.5 + 1000. + sum(c for _ in range(nb[c - 1])), c * 0.5 + 1000. + sum(range(1, nb[c - 1] + 1))]
+          b0 = rec.get('base', 1000.)
+          base = [c * 0.5 + b0 + sum(c for _ in range(nb[c - 1])), c * 0.5 + b0 + sum(range(1, nb[c - 1] + 1))]
           hh = c
           for t in y['seq'][1:]:
             hh = (hh * 31 + t) % 2**32
@@ -215,7 +219,7 @@ def run(ctx):
             problem = ('output', f'client {c}: consumed tokens {out}, the fold is {e["out"]}')
           elif rec['with_step_result'] and res != e['res']:
             problem = ('step_results', f'client {c}: step results {res}, the fold gives {e["res"]}')
-          elif not y['finite'] or y['vec'] != base or y['h'] != hh or y['k'] != 7 or y['flag'] is not True:
+          elif not y['finite'] or y['vec'] != base or y['h'] != hh or y['k'] != rec.get('k', 7) or y['flag'] is not True:
             problem = ('values', f'client {c}: vec={y["vec"]} (expected {base}) h={y["h"]} (expected {hh}) flag={y["flag"]} k={y["k"]}')
           elif rec['with_step_result'] and any(r['q'] != 1.0 for r in y['res']):
             problem = ('padding-step-result', f'client {c}: a step result was computed on a padding batch')
